@@ -569,6 +569,12 @@ func (i *interpreter) external(fn *ssa.Function) externalFn {
 func (i *interpreter) initAllowed(pkg *ssa.Package) bool {
 	p := pkg.Pkg.Path()
 	if i.modulePath != "" && (p == i.modulePath || strings.HasPrefix(p, i.modulePath+"/")) {
+		// module packages whose initialisers do file I/O (embedded dictionaries, font maps)
+		rel := strings.TrimPrefix(p, i.modulePath+"/")
+		if moduleInitSkip[rel] {
+			deniedUninit[p] = true
+			return false
+		}
 		return true
 	}
 	return initWhitelist[p]
@@ -661,6 +667,8 @@ func callSSA(i *interpreter, caller *frame, callpos token.Pos, fn *ssa.Function,
 
 // packages that are interpreted although their initialiser is not run
 var deniedUninit = map[string]bool{}
+
+var moduleInitSkip = map[string]bool{"text/hyphen": true}
 
 func isEnginePanic(p interface{}) bool {
 	switch p.(type) {
